@@ -93,6 +93,9 @@ def layout_edits(rec, li, n, seed, only=None):
                 edits.append(("unknown-boundary-word-in-mapping", call(boundary={"X": "bogus"})))
                 edits.append(("string-fill-value", call(boundary="fill", fill_value="abc")))
                 edits.append(("string-fill-value-in-mapping", call(boundary="fill", fill_value={"X": "abc"})))
+                # text that spells a number is still not a number
+                edits.append(("numeric-looking-string-fill-value", call(boundary="fill", fill_value="1")))
+                edits.append(("numeric-looking-string-fill-value-in-mapping", call(boundary="fill", fill_value={"X": "nan"})))
 
                 def ctor_b():
                     gg = build_grid({"X": layout}, {"X": n}, dict(periodic=False, boundary="bogus"))
@@ -109,6 +112,17 @@ def layout_edits(rec, li, n, seed, only=None):
                 edits.append(("unknown-boundary-word-at-construction", ctor_b))
                 edits.append(("unknown-boundary-word-in-mapping-at-construction", ctor_bm))
                 edits.append(("string-fill-value-at-construction", ctor_f))
+
+                def ctor_f1():
+                    gg = build_grid({"X": layout}, {"X": n}, dict(periodic=False, boundary="fill", fill_value="1"))
+                    return getattr(gg, op)(da, "X", to=to)
+
+                def ctor_f2():
+                    gg = build_grid({"X": layout}, {"X": n}, dict(periodic=False, boundary="fill", fill_value={"X": "-2.5"}))
+                    return getattr(gg, op)(da, "X", to=to)
+
+                edits.append(("numeric-looking-string-fill-value-at-construction", ctor_f1))
+                edits.append(("numeric-looking-string-fill-value-in-mapping-at-construction", ctor_f2))
             for name, fn in edits:
                 case = dict(base, edit=name)
                 if only is not None and only != case:
